@@ -291,11 +291,6 @@ Qed.
 Definition is_sni_ext (e : extension) (l : list sni_entry) : Prop :=
   ext_type e = 0 /\ ext_data e = enc_sni_list l.
 
-(* every extension is either not server_name or a well-formed server_name list *)
-Definition wf_ext (e : extension) : Prop :=
-  ext_type e < 65536 /\ nlen (ext_data e) < 65536 /\
-  (ext_type e = 0 -> exists l, ext_data e = enc_sni_list l).
-
 (* the name the extension list denotes, folding left to right like TLS readers that
    keep the last occurrence; with at most one server_name extension (RFC 6066) this
    is simply that extension's first host_name *)
@@ -352,12 +347,435 @@ Proof.
     apply IH; [|exact Hd]. rewrite !app_length in Hf. cbn [length enc16] in Hf. lia.
 Qed.
 
+(* ================= byte strings ================= *)
+(* byte strings: every element below 256 *)
+Definition is_byte (b : N) : Prop := b < 256.
+Definition all_bytes (s : str) : Prop := Forall is_byte s.
+
+(* an extension whose type and length fit their 16-bit fields and whose body is bytes *)
+Definition ext_fits (e : extension) : Prop :=
+  ext_type e < 65536 /\ nlen (ext_data e) < 65536 /\ all_bytes (ext_data e).
+
+(* ================= fuel adequacy on ALL inputs =================
+   Every iteration of either loop consumes at least 3 (resp. 4) bytes, so any fuel above
+   the length of the input gives the same result: the [O] branches of [names] / [exts]
+   (which return a normal-looking value) are unreachable from the fuel the model passes,
+   on malformed inputs as well as on encodings. *)
+Lemma names_fuel_irrel f1 : forall f2 d,
+  (length d < f1)%nat -> (length d < f2)%nat -> names f1 d = names f2 d.
+Proof.
+  induction f1 as [|f1 IH]; intros f2 d H1 H2; [lia|].
+  destruct f2 as [|f2]; [lia|].
+  cbn [names].
+  destruct (nlen d =? 0); [reflexivity|].
+  destruct (3 <=? nlen d) eqn:E3; [|reflexivity].
+  apply N.leb_le in E3. unfold nlen in E3.
+  destruct (idx d 0) as [ty|k|]; cbn [bind]; try reflexivity.
+  destruct (u16 d 1) as [nl|k|]; cbn [bind]; try reflexivity.
+  destruct (from d 3) as [d1|k|] eqn:Hf; cbn [bind]; try reflexivity.
+  destruct (nl <=? nlen d1); [|reflexivity].
+  destruct (ty =? 0); [reflexivity|].
+  destruct (from d1 (N.to_nat nl)) as [d2|k|] eqn:Hf2; cbn [bind]; try reflexivity.
+  apply from_ok in Hf as [-> ?]. apply from_ok in Hf2 as [-> ?].
+  apply IH; rewrite !skipn_length; lia.
+Qed.
+
+Theorem names_fuel_adequate d f :
+  (length d < f)%nat -> names f d = names (S (length d)) d.
+Proof. intros H. apply names_fuel_irrel; lia. Qed.
+
+Lemma exts_fuel_irrel f1 : forall f2 d sn,
+  (length d < f1)%nat -> (length d < f2)%nat -> exts f1 d sn = exts f2 d sn.
+Proof.
+  induction f1 as [|f1 IH]; intros f2 d sn H1 H2; [lia|].
+  destruct f2 as [|f2]; [lia|].
+  cbn [exts].
+  destruct (nlen d =? 0); [reflexivity|].
+  destruct (4 <=? nlen d) eqn:E4; [|reflexivity].
+  apply N.leb_le in E4. unfold nlen in E4.
+  destruct (u16 d 0) as [e|k|]; cbn [bind]; try reflexivity.
+  destruct (u16 d 2) as [len|k|]; cbn [bind]; try reflexivity.
+  destruct (from d 4) as [d1|k|] eqn:Hf; cbn [bind]; try reflexivity.
+  destruct (len <=? nlen d1); [|reflexivity].
+  match goal with |- bind ?x _ = _ => destruct x as [sn'|k|] end; cbn [bind]; try reflexivity.
+  destruct (from d1 (N.to_nat len)) as [d2|k|] eqn:Hf2; cbn [bind]; try reflexivity.
+  apply from_ok in Hf as [-> ?]. apply from_ok in Hf2 as [-> ?].
+  apply IH; rewrite !skipn_length; lia.
+Qed.
+
+Theorem exts_fuel_adequate d sn f :
+  (length d < f)%nat -> exts f d sn = exts (S (length d)) d sn.
+Proof. intros H. apply exts_fuel_irrel; lia. Qed.
+
+(* ================= the encoding of a well-formed hello is a string of bytes ================= *)
+Lemma all_bytes_app a b : all_bytes (a ++ b) <-> all_bytes a /\ all_bytes b.
+Proof. apply Forall_app. Qed.
+Lemma all_bytes_split n d : all_bytes d -> all_bytes (firstn n d) /\ all_bytes (skipn n d).
+Proof. intros H. apply Forall_app. now rewrite firstn_skipn. Qed.
+Lemma all_bytes_firstn n d : all_bytes d -> all_bytes (firstn n d).
+Proof. intros H. now apply all_bytes_split. Qed.
+Lemma all_bytes_skipn n d : all_bytes d -> all_bytes (skipn n d).
+Proof. intros H. now apply all_bytes_split. Qed.
+Lemma all_bytes_cons x d : all_bytes (x :: d) <-> x < 256 /\ all_bytes d.
+Proof. split; [intros H; inversion H; auto | intros [? ?]; now constructor]. Qed.
+
+Lemma enc16_is_bytes n : n < 65536 -> all_bytes (enc16 n).
+Proof.
+  intros H. unfold enc16. repeat constructor; unfold is_byte.
+  - apply N.div_lt_upper_bound; [discriminate|lia].
+  - apply N.mod_lt. discriminate.
+Qed.
+Lemma enc24_is_bytes n : n < 16777216 -> all_bytes (enc24 n).
+Proof.
+  intros H. unfold enc24. repeat constructor; unfold is_byte.
+  - apply N.div_lt_upper_bound; [discriminate|lia].
+  - apply N.mod_lt. discriminate.
+  - apply N.mod_lt. discriminate.
+Qed.
+
+Lemma enc_exts_list_bytes es : Forall ext_fits es -> all_bytes (flat_map enc_ext es).
+Proof.
+  induction 1 as [|e es (Ht & Hl & Hb) _ IH]; [constructor|].
+  cbn [flat_map]. unfold enc_ext. rewrite !all_bytes_app.
+  repeat split; auto using enc16_is_bytes.
+Qed.
+
+(* ================= parser soundness: what an accepted input looks like ================= *)
+Lemma idx_byte d i b : all_bytes d -> idx d i = Ok b -> b < 256.
+Proof.
+  unfold idx. intros Hb. destruct (nth_error d i) eqn:E; [|discriminate].
+  intros H. inversion H; subst. apply nth_error_In in E.
+  unfold all_bytes in Hb. rewrite Forall_forall in Hb. now apply Hb.
+Qed.
+
+Lemma skipn_idx d : forall i b, idx d i = Ok b -> skipn i d = b :: skipn (S i) d.
+Proof.
+  unfold idx. induction d as [|x d IH]; intros [|i] b; cbn [nth_error]; try discriminate.
+  - intros H. inversion H. reflexivity.
+  - intros H. apply IH in H. exact H.
+Qed.
+
+Lemma enc16_bytes hi lo : hi < 256 -> lo < 256 -> enc16 (hi * 256 + lo) = [hi; lo].
+Proof.
+  intros H1 H2. unfold enc16. f_equal; [|f_equal].
+  - symmetry. apply (N.div_unique _ 256 hi lo); lia.
+  - symmetry. apply (N.mod_unique _ 256 hi lo); lia.
+Qed.
+Lemma enc24_bytes b0 b1 b2 : b0 < 256 -> b1 < 256 -> b2 < 256 ->
+  enc24 (b0 * 65536 + b1 * 256 + b2) = [b0; b1; b2].
+Proof.
+  intros H0 H1 H2. unfold enc24.
+  assert (Hd : (b0 * 65536 + b1 * 256 + b2) / 256 = b0 * 256 + b1).
+  { symmetry. apply (N.div_unique _ 256 _ b2); lia. }
+  f_equal; [|f_equal; [|f_equal]].
+  - symmetry. apply (N.div_unique _ 65536 b0 (b1 * 256 + b2)); lia.
+  - rewrite Hd. symmetry. apply (N.mod_unique _ 256 b0 b1); lia.
+  - symmetry. apply (N.mod_unique _ 256 (b0 * 256 + b1) b2); lia.
+Qed.
+
+Lemma u16_split d i v : all_bytes d -> u16 d i = Ok v ->
+  skipn i d = enc16 v ++ skipn (i + 2) d /\ v < 65536.
+Proof.
+  intros Hb. unfold u16.
+  destruct (idx d i) as [hi|k|] eqn:H1; cbn [bind]; try discriminate.
+  destruct (idx d (i + 1)) as [lo|k|] eqn:H2; cbn [bind]; try discriminate.
+  intros H. inversion H; subst v; clear H.
+  pose proof (idx_byte _ _ _ Hb H1) as B1. pose proof (idx_byte _ _ _ Hb H2) as B2.
+  rewrite enc16_bytes by assumption.
+  apply skipn_idx in H1, H2. rewrite H1.
+  replace (S i) with (i + 1)%nat by lia. rewrite H2.
+  replace (S (i + 1)) with (i + 2)%nat by lia. split; [reflexivity|lia].
+Qed.
+
+(* skipn i d = (the next k bytes) ++ the rest *)
+Lemma skipn_add {A} a : forall b (d : list A), skipn (a + b) d = skipn b (skipn a d).
+Proof.
+  induction a as [|a IH]; intros b d; [reflexivity|].
+  destruct d as [|x d]; [now rewrite !skipn_nil|]. cbn [Nat.add skipn]. apply IH.
+Qed.
+Lemma skipn_take (d : str) i k : skipn i d = firstn k (skipn i d) ++ skipn (i + k) d.
+Proof. rewrite skipn_add. symmetry. apply firstn_skipn. Qed.
+
+(* what the list loop accepts: entries of other types, then either the end of the list or a
+   host_name entry followed by ANY bytes (the loop breaks there and never looks at them) *)
+Inductive sni_body : str -> option str -> Prop :=
+| sb_end : sni_body [] None
+| sb_host name junk :
+    sni_body (enc_sni_entry {| sn_type := 0; sn_name := name |} ++ junk) (Some name)
+| sb_skip e rest o :
+    sn_type e <> 0 -> sni_body rest o -> sni_body (enc_sni_entry e ++ rest) o.
+
+Lemma entry_split d ty nl :
+  all_bytes d -> idx d 0 = Ok ty -> u16 d 1 = Ok nl -> nl <= nlen (skipn 3 d) ->
+  d = enc_sni_entry {| sn_type := ty; sn_name := firstn (N.to_nat nl) (skipn 3 d) |}
+      ++ skipn (N.to_nat nl) (skipn 3 d).
+Proof.
+  intros Hb H0 H1 Hle. unfold nlen in Hle.
+  apply skipn_idx in H0. rewrite skipn_O in H0.
+  apply (u16_split d 1 nl Hb) in H1 as [H1 _]. cbn [Nat.add] in H1.
+  unfold enc_sni_entry. cbn [sn_type sn_name].
+  rewrite nlen_firstn by lia. rewrite N2Nat.id.
+  cbn [app]. rewrite <- app_assoc, firstn_skipn, <- H1. exact H0.
+Qed.
+
+Lemma names_sound f : forall d o,
+  all_bytes d -> (length d < f)%nat -> names f d = Ok o -> sni_body d o.
+Proof.
+  induction f as [|f IH]; intros d o Hb Hf; [lia|]. cbn [names].
+  destruct (nlen d =? 0) eqn:E0.
+  { intros H. inversion H; subst. apply N.eqb_eq in E0. unfold nlen in E0.
+    destruct d; [constructor|cbn [length] in E0; lia]. }
+  destruct (3 <=? nlen d) eqn:E3; [|discriminate].
+  apply N.leb_le in E3. unfold nlen in E3.
+  destruct (idx d 0) as [ty|k|] eqn:H0; cbn [bind]; try discriminate.
+  destruct (u16 d 1) as [nl|k|] eqn:H1; cbn [bind]; try discriminate.
+  destruct (from d 3) as [d1|k|] eqn:H2; cbn [bind]; try discriminate.
+  apply from_ok in H2 as [-> H3].
+  destruct (nl <=? nlen (skipn 3 d)) eqn:E4; [|discriminate]. apply N.leb_le in E4.
+  pose proof (entry_split d ty nl Hb H0 H1 E4) as Hd.
+  unfold nlen in E4.
+  destruct (ty =? 0) eqn:Et.
+  - apply N.eqb_eq in Et. subst ty.
+    destruct (slice (skipn 3 d) 0 (N.to_nat nl)) as [n|k|] eqn:Hs; cbn [bind]; try discriminate.
+    apply slice_ok in Hs as [-> _]. rewrite skipn_O, Nat.sub_0_r.
+    intros H. inversion H; subst o; clear H.
+    rewrite Hd at 1. constructor.
+  - apply N.eqb_neq in Et.
+    destruct (from (skipn 3 d) (N.to_nat nl)) as [d2|k|] eqn:Hs; cbn [bind]; try discriminate.
+    apply from_ok in Hs as [-> _].
+    intros H. rewrite Hd at 1. apply sb_skip; [exact Et|].
+    apply IH; [now apply all_bytes_skipn, all_bytes_skipn | rewrite !skipn_length; lia | exact H].
+Qed.
+
+(* and conversely the loop accepts every such list (no byte bound needed) *)
+Lemma names_body : forall d o, sni_body d o ->
+  forall f, (length d < f)%nat -> names f d = Ok o.
+Proof.
+  induction 1 as [|name junk|e rest o Hne Hs IH]; intros f Hf; (destruct f as [|f]; [lia|]); cbn [names].
+  - reflexivity.
+  - unfold enc_sni_entry. cbn [sn_type sn_name app].
+    rewrite nlen_cons. destruct (1 + _ =? 0) eqn:E; [apply N.eqb_eq in E; lia|]. clear E.
+    rewrite <- !app_assoc, !nlen_app, nlen_enc16.
+    destruct (3 <=? 1 + (2 + _)) eqn:E; [|apply N.leb_gt in E; lia]. clear E.
+    unfold idx at 1. cbn [nth_error bind].
+    change (0 :: enc16 (nlen name) ++ name ++ junk) with ([0] ++ enc16 (nlen name) ++ name ++ junk) at 1.
+    rewrite (u16_at 1%nat [0]) by reflexivity. cbn [bind].
+    change (0 :: enc16 (nlen name) ++ name ++ junk) with ((0 :: enc16 (nlen name)) ++ name ++ junk).
+    rewrite from_at by reflexivity. cbn [bind].
+    rewrite nlen_app.
+    destruct (nlen name <=? _) eqn:E; [|apply N.leb_gt in E; lia]. clear E.
+    cbn [N.eqb]. rewrite slice_0 by (apply nlen_to_nat). reflexivity.
+  - unfold enc_sni_entry in *. cbn [app] in *.
+    rewrite nlen_cons. destruct (1 + _ =? 0) eqn:E; [apply N.eqb_eq in E; lia|]. clear E.
+    rewrite <- !app_assoc in *. rewrite !nlen_app, nlen_enc16.
+    destruct (3 <=? 1 + (2 + _)) eqn:E; [|apply N.leb_gt in E; lia]. clear E.
+    unfold idx at 1. cbn [nth_error bind].
+    change (sn_type e :: enc16 (nlen (sn_name e)) ++ sn_name e ++ rest)
+      with ([sn_type e] ++ enc16 (nlen (sn_name e)) ++ sn_name e ++ rest) at 1.
+    rewrite (u16_at 1%nat [sn_type e]) by reflexivity. cbn [bind].
+    change (sn_type e :: enc16 (nlen (sn_name e)) ++ sn_name e ++ rest)
+      with ((sn_type e :: enc16 (nlen (sn_name e))) ++ sn_name e ++ rest).
+    rewrite from_at by reflexivity. cbn [bind].
+    rewrite nlen_app.
+    destruct (nlen (sn_name e) <=? _) eqn:E; [|apply N.leb_gt in E; lia]. clear E.
+    destruct (sn_type e =? 0) eqn:Et; [apply N.eqb_eq in Et; contradiction|].
+    rewrite from_at by (apply nlen_to_nat). cbn [bind].
+    apply IH. cbn [length] in Hf. rewrite !app_length in Hf. lia.
+Qed.
+
+(* a well-formed list (the encoding of entries) is such a body, and its name is the first host_name *)
+Lemma sni_body_of_list l : sni_body (flat_map enc_sni_entry l) (sni_of_list l).
+Proof.
+  induction l as [|e l IH]; [constructor|].
+  cbn [flat_map]. unfold sni_of_list. cbn [host_entries filter].
+  destruct (sn_type e =? 0) eqn:Et.
+  - apply N.eqb_eq in Et. destruct e as [ty nm]. cbn [sn_type sn_name] in *. subst ty. constructor.
+  - apply N.eqb_neq in Et. apply sb_skip; [exact Et|]. exact IH.
+Qed.
+
+
+(* ---- the extension block: what the loop accepts ----
+   [exts_parse es sn r]: starting with name [sn], the extensions [es] leave name [r].  Unlike
+   [exts_denote] a server_name extension need not carry a well-formed list: its data is a
+   16-bit length and a [sni_body] (bytes after the first host_name entry are never read). *)
+Inductive exts_parse : list extension -> str -> str -> Prop :=
+| ep_nil sn : exts_parse [] sn sn
+| ep_other e es sn r : ext_type e <> 0 -> exts_parse es sn r -> exts_parse (e :: es) sn r
+| ep_sni e body o es sn r :
+    ext_type e = 0 -> ext_data e = enc16 (nlen body) ++ body -> sni_body body o ->
+    exts_parse es (match o with Some n => n | None => sn end) r ->
+    exts_parse (e :: es) sn r.
+
+Lemma exts_denote_parse es sn r : exts_denote es sn r -> exts_parse es sn r.
+Proof.
+  induction 1 as [sn | e es sn r Hne _ IH | e l es sn r [Ht Hdata] _ IH].
+  - constructor.
+  - now apply ep_other.
+  - apply (ep_sni e (flat_map enc_sni_entry l) (sni_of_list l)); auto.
+    apply sni_body_of_list.
+Qed.
+
+Lemma ext_split d e len :
+  all_bytes d -> u16 d 0 = Ok e -> u16 d 2 = Ok len -> len <= nlen (skipn 4 d) ->
+  d = enc_ext {| ext_type := e; ext_data := firstn (N.to_nat len) (skipn 4 d) |}
+      ++ skipn (N.to_nat len) (skipn 4 d).
+Proof.
+  intros Hb H0 H1 Hle. unfold nlen in Hle.
+  apply (u16_split d 0 e Hb) in H0 as [H0 _]. rewrite skipn_O in H0. cbn [Nat.add] in H0.
+  apply (u16_split d 2 len Hb) in H1 as [H1 _]. cbn [Nat.add] in H1.
+  unfold enc_ext. cbn [ext_type ext_data].
+  rewrite nlen_firstn by lia. rewrite N2Nat.id.
+  rewrite <- !app_assoc, firstn_skipn, <- H1. exact H0.
+Qed.
+
+Lemma exts_sound f : forall d sn r,
+  all_bytes d -> (length d < f)%nat -> exts f d sn = Ok r ->
+  exists es, d = flat_map enc_ext es /\ exts_parse es sn r /\ Forall ext_fits es.
+Proof.
+  induction f as [|f IH]; intros d sn r Hb Hf; [lia|]. cbn [exts].
+  destruct (nlen d =? 0) eqn:E0.
+  { intros H. inversion H; subst. apply N.eqb_eq in E0. unfold nlen in E0.
+    destruct d; [|cbn [length] in E0; lia]. exists []. repeat split; constructor. }
+  destruct (4 <=? nlen d) eqn:E4; [|discriminate].
+  apply N.leb_le in E4. unfold nlen in E4.
+  destruct (u16 d 0) as [e|k|] eqn:H0; cbn [bind]; try discriminate.
+  destruct (u16 d 2) as [len|k|] eqn:H1; cbn [bind]; try discriminate.
+  destruct (from d 4) as [d1|k|] eqn:H2; cbn [bind]; try discriminate.
+  apply from_ok in H2 as [-> H3].
+  destruct (len <=? nlen (skipn 4 d)) eqn:E5; [|discriminate]. apply N.leb_le in E5.
+  pose proof (ext_split d e len Hb H0 H1 E5) as Hd.
+  pose proof (proj2 (u16_split d 0 e Hb H0)) as Be.
+  pose proof (proj2 (u16_split d 2 len Hb H1)) as Blen.
+  unfold nlen in E5.
+  set (data := firstn (N.to_nat len) (skipn 4 d)) in *.
+  set (rest := skipn (N.to_nat len) (skipn 4 d)) in *.
+  assert (Bdata : all_bytes data) by (apply all_bytes_firstn, all_bytes_skipn, Hb).
+  assert (Brest : all_bytes rest) by (apply all_bytes_skipn, all_bytes_skipn, Hb).
+  assert (Ldata : nlen data = len) by (unfold data; rewrite nlen_firstn by lia; lia).
+  assert (Lrest : (length rest < f)%nat) by (unfold rest; rewrite !skipn_length; lia).
+  assert (Hfit : ext_fits {| ext_type := e; ext_data := data |}).
+  { unfold ext_fits. cbn [ext_type ext_data]. rewrite Ldata. auto. }
+  destruct (e =? 0) eqn:Ee.
+  - apply N.eqb_eq in Ee.
+    destruct (slice (skipn 4 d) 0 (N.to_nat len)) as [x|k|] eqn:Hs; cbn [bind]; try discriminate.
+    apply slice_ok in Hs as [-> _]. rewrite skipn_O, Nat.sub_0_r. fold data.
+    destruct (2 <=? nlen data) eqn:E6; cbn [bind]; [|discriminate].
+    destruct (u16 data 0) as [nl|k|] eqn:H4; cbn [bind]; try discriminate.
+    destruct (from data 2) as [x1|k|] eqn:H5; cbn [bind]; try discriminate.
+    apply from_ok in H5 as [-> H6].
+    destruct (nlen (skipn 2 data) =? nl) eqn:E7; cbn [bind]; [|discriminate]. apply N.eqb_eq in E7.
+    destruct (names (S (length (skipn 2 data))) (skipn 2 data)) as [o|k|] eqn:Hn; cbn [bind]; try discriminate.
+    apply names_sound in Hn; [|now apply all_bytes_skipn|lia].
+    apply (u16_split data 0 nl Bdata) in H4 as [H4 _]. rewrite skipn_O in H4. cbn [Nat.add] in H4.
+    destruct (from (skipn 4 d) (N.to_nat len)) as [d2|k|] eqn:H7; cbn [bind]; try discriminate.
+    apply from_ok in H7 as [-> _]. fold rest.
+    intros Hx. apply IH in Hx as (es & Hes & Hp & Hfs); auto.
+    exists ({| ext_type := e; ext_data := data |} :: es). repeat split.
+    + cbn [flat_map]. rewrite <- Hes. exact Hd.
+    + apply (ep_sni _ (skipn 2 data) o); auto. cbn [ext_data]. rewrite E7. exact H4.
+    + now constructor.
+  - apply N.eqb_neq in Ee. cbn [bind].
+    destruct (from (skipn 4 d) (N.to_nat len)) as [d2|k|] eqn:H7; cbn [bind]; try discriminate.
+    apply from_ok in H7 as [-> _]. fold rest.
+    intros Hx. apply IH in Hx as (es & Hes & Hp & Hfs); auto.
+    exists ({| ext_type := e; ext_data := data |} :: es). repeat split.
+    + cbn [flat_map]. rewrite <- Hes. exact Hd.
+    + apply ep_other; auto.
+    + now constructor.
+Qed.
+
+(* and conversely (no byte bound needed): the loop accepts everything [exts_parse] describes *)
+Lemma exts_parse_enc fuel : forall es sn r,
+  (length (flat_map enc_ext es) < fuel)%nat ->
+  exts_parse es sn r ->
+  exts fuel (flat_map enc_ext es) sn = Ok r.
+Proof.
+  induction fuel as [|f IH]; intros es sn r Hf Hd; [lia|].
+  cbn [exts]. destruct Hd as [sn | e es sn r Hne Hd | e body o es sn r Ht Hdata Hbody Hd].
+  - reflexivity.
+  - cbn [flat_map] in *. unfold enc_ext in * |- *. fold enc_ext in *.
+    rewrite <- !app_assoc in *.
+    rewrite !nlen_app, !nlen_enc16.
+    destruct (2 + _ =? 0) eqn:E; [apply N.eqb_eq in E; lia|]. clear E.
+    destruct (4 <=? _) eqn:E; [|apply N.leb_gt in E; lia]. clear E.
+    rewrite u16_0. cbn [bind].
+    rewrite (u16_at 2%nat (enc16 (ext_type e))) by reflexivity. cbn [bind].
+    rewrite app_assoc. rewrite from_at by reflexivity. cbn [bind].
+    rewrite nlen_app.
+    destruct (nlen (ext_data e) <=? _) eqn:E; [|apply N.leb_gt in E; lia]. clear E.
+    destruct (ext_type e =? 0) eqn:E; [apply N.eqb_eq in E; contradiction|]. clear E.
+    cbn [bind]. rewrite from_at by (apply nlen_to_nat). cbn [bind].
+    apply IH; [|exact Hd]. rewrite !app_length in Hf. cbn [length enc16] in Hf. lia.
+  - cbn [flat_map] in *. unfold enc_ext in * |- *. fold enc_ext in *.
+    rewrite <- !app_assoc in *.
+    rewrite !nlen_app, !nlen_enc16.
+    destruct (2 + _ =? 0) eqn:E; [apply N.eqb_eq in E; lia|]. clear E.
+    destruct (4 <=? _) eqn:E; [|apply N.leb_gt in E; lia]. clear E.
+    rewrite u16_0. cbn [bind].
+    rewrite (u16_at 2%nat (enc16 (ext_type e))) by reflexivity. cbn [bind].
+    rewrite app_assoc. rewrite from_at by reflexivity. cbn [bind].
+    rewrite nlen_app.
+    destruct (nlen (ext_data e) <=? _) eqn:E; [|apply N.leb_gt in E; lia]. clear E.
+    rewrite Ht. cbn [N.eqb].
+    rewrite slice_0 by (apply nlen_to_nat). cbn [bind].
+    set (tailx := from (ext_data e ++ flat_map enc_ext es) (N.to_nat (nlen (ext_data e)))).
+    rewrite Hdata.
+    rewrite nlen_app, nlen_enc16.
+    destruct (2 <=? _) eqn:E; [|apply N.leb_gt in E; lia]. clear E.
+    rewrite u16_0. cbn [bind].
+    rewrite (from_at 2%nat (enc16 _)) by reflexivity. cbn [bind].
+    rewrite N.eqb_refl.
+    rewrite (names_body _ _ Hbody) by lia. cbn [bind].
+    subst tailx. rewrite from_at by (apply nlen_to_nat). cbn [bind].
+    apply IH; [|exact Hd]. rewrite !app_length in Hf. cbn [length enc16] in Hf. lia.
+Qed.
+
+
 (* ---- the whole message ---- *)
+(* well-formed = the shape RFC 5246 7.4.1.2 gives the message (first three fields: what the
+   round trip needs) and every field is a byte string that fits its length prefix (so that
+   [enc_handshake h] is a string of bytes: lemma [enc_handshake_bytes]) *)
 Record wf_hello (h : hello) : Prop := {
   wf_random : length (h_random h) = 32%nat;
   wf_session : nlen (h_session h) <= 32;
-  wf_ciphers : N.even (nlen (h_ciphers h)) = true
+  wf_ciphers : N.even (nlen (h_ciphers h)) = true;
+  wf_vers : h_vers_hi h < 256 /\ h_vers_lo h < 256;
+  wf_field_bytes : all_bytes (h_random h) /\ all_bytes (h_session h) /\
+                   all_bytes (h_ciphers h) /\ all_bytes (h_compress h);
+  wf_ciphers_len : nlen (h_ciphers h) < 65536;
+  wf_compress_len : nlen (h_compress h) < 256;
+  wf_exts_fit : match h_exts h with
+                | None => True
+                | Some es => Forall ext_fits es /\ nlen (flat_map enc_ext es) < 65536
+                end;
+  wf_body_len : nlen (enc_body h) < 16777216
 }.
+
+Lemma bytes_b_ok s : bytes_b s = true -> all_bytes s.
+Proof.
+  unfold bytes_b, all_bytes. intros H. apply Forall_forall. intros x Hx.
+  rewrite forallb_forall in H. apply H in Hx. now apply N.ltb_lt in Hx.
+Qed.
+
+Lemma wf_hello_b_ok h : wf_hello_b h = true -> wf_hello h.
+Proof.
+  unfold wf_hello_b. intros H.
+  repeat match type of H with (_ && _) = true => let H' := fresh "W" in apply andb_true_iff in H as [H H'] end.
+  constructor.
+  - now apply Nat.eqb_eq.
+  - now apply N.leb_le.
+  - assumption.
+  - split; now apply N.ltb_lt.
+  - repeat split; now apply bytes_b_ok.
+  - now apply N.ltb_lt.
+  - now apply N.ltb_lt.
+  - destruct (h_exts h) as [es|]; [|exact I].
+    apply andb_true_iff in W0 as [Wa Wb]. split; [|now apply N.ltb_lt].
+    apply Forall_forall. intros e He. rewrite forallb_forall in Wa. apply Wa in He.
+    unfold ext_fits_b in He. apply andb_true_iff in He as [He H3]. apply andb_true_iff in He as [H1 H2].
+    repeat split; [now apply N.ltb_lt | now apply N.ltb_lt | now apply bytes_b_ok].
+  - now apply N.ltb_lt.
+Qed.
 
 Definition hello_denotes (h : hello) (r : str) : Prop :=
   match h_exts h with
@@ -365,10 +783,22 @@ Definition hello_denotes (h : hello) (r : str) : Prop :=
   | Some es => exts_denote es [] r
   end.
 
-Lemma read_encode_lemma h r :
-  wf_hello h -> hello_denotes h r -> read_server_name (enc_handshake h) = Ok r.
+(* what the parser accepts of the extension block (see [exts_parse]) *)
+Definition hello_parses (h : hello) (r : str) : Prop :=
+  match h_exts h with
+  | None => r = []
+  | Some es => exts_parse es [] r
+  end.
+
+Lemma hello_denotes_parses h r : hello_denotes h r -> hello_parses h r.
 Proof.
-  intros [Hr Hs Hc] Hd. unfold read_server_name, unmarshal, enc_handshake.
+  unfold hello_denotes, hello_parses. destruct (h_exts h); [apply exts_denote_parse|auto].
+Qed.
+
+Lemma read_parse_lemma h r :
+  wf_hello h -> hello_parses h r -> read_server_name (enc_handshake h) = Ok r.
+Proof.
+  intros [Hr Hs Hc _ _ _ _ _ _] Hd. unfold read_server_name, unmarshal, enc_handshake.
   set (body := enc_body h).
   assert (Hbody : body = [h_vers_hi h; h_vers_lo h] ++ h_random h
             ++ [nlen (h_session h)] ++ h_session h
@@ -433,16 +863,21 @@ Proof.
   rewrite app_assoc.
   rewrite from_at by (rewrite app_length, nlen_to_nat; reflexivity). cbn [bind].
   (* extensions *)
-  unfold hello_denotes in Hd. destruct (h_exts h) as [es|]; cbn [enc_exts].
+  unfold hello_parses in Hd. destruct (h_exts h) as [es|]; cbn [enc_exts].
   - rewrite nlen_app, nlen_enc16.
     destruct (2 + _ =? 0) eqn:E; [apply N.eqb_eq in E; lia|]. clear E.
     destruct (2 <=? _) eqn:E; [|apply N.leb_gt in E; lia]. clear E.
     rewrite u16_0. cbn [bind].
     rewrite (from_at 2%nat (enc16 _)) by reflexivity. cbn [bind].
     rewrite N.eqb_refl.
-    apply exts_enc; [lia|exact Hd].
+    apply exts_parse_enc; [lia|exact Hd].
   - subst r. reflexivity.
 Qed.
+
+Lemma read_encode_lemma h r :
+  wf_hello h -> hello_denotes h r -> read_server_name (enc_handshake h) = Ok r.
+Proof. intros Hwf Hd. apply read_parse_lemma; [exact Hwf|now apply hello_denotes_parses]. Qed.
+
 
 (* non-vacuity: a concrete hello with ALPN-like and server_name extensions *)
 Definition ex_hello : hello := {|
@@ -454,7 +889,7 @@ Definition ex_hello : hello := {|
 |}.
 Example ex_hello_wf : wf_hello ex_hello /\ hello_denotes ex_hello (bs "foo.com"%string).
 Proof.
-  split; [split; [reflexivity | vm_compute; discriminate | reflexivity]|].
+  split; [apply wf_hello_b_ok; vm_compute; reflexivity|].
   unfold hello_denotes. cbn [h_exts ex_hello].
   apply ed_other; [discriminate|].
   eapply ed_sni; [split; reflexivity|]. apply ed_nil.
@@ -566,7 +1001,7 @@ Proof.
   assert (HRL : nlen hs = L + 4).
   { rewrite Hhs, nlen_cons, nlen_app. unfold L. unfold nlen at 1. cbn [length enc24]. lia. }
   assert (HL : 0 < L).
-  { destruct Hwf as [Hr _ _]. unfold L, enc_body. rewrite !nlen_app. unfold nlen at 2. rewrite Hr. lia. }
+  { destruct Hwf as [Hr _ _ _ _ _ _ _ _]. unfold L, enc_body. rewrite !nlen_app. unfold nlen at 2. rewrite Hr. lia. }
   set (stream := ([22; hi; lo] ++ enc16 (nlen hs) ++ hs) ++ extra).
   assert (Hn : nlen stream = 5 + nlen hs + nlen extra).
   { unfold stream. rewrite !nlen_app. unfold nlen at 1 2. cbn [length enc16]. lia. }
@@ -592,4 +1027,525 @@ Proof.
   rewrite (from_at 5%nat ([22; hi; lo] ++ enc16 (nlen hs))) by reflexivity. cbn [bind].
   rewrite Hread. cbn [bind]. f_equal. f_equal.
   rewrite !nlen_app, nlen_enc16. change (nlen [22; hi; lo]) with 3. lia.
+Qed.
+
+(* ---------- the encoding of a well-formed hello is a string of bytes ---------- *)
+Theorem enc_handshake_bytes h : wf_hello h -> all_bytes (enc_handshake h).
+Proof.
+  intros [Hr Hs Hc [Hv1 Hv2] (Br & Bs & Bc & Bm) Hcl Hml He Hbl].
+  unfold enc_handshake. apply all_bytes_cons. split; [lia|].
+  apply all_bytes_app. split; [now apply enc24_is_bytes|].
+  unfold enc_body. rewrite !all_bytes_app.
+  repeat split; auto.
+  - repeat constructor; assumption.
+  - repeat constructor. unfold is_byte. lia.
+  - now apply enc16_is_bytes.
+  - repeat constructor. exact Hml.
+  - destruct (h_exts h) as [es|]; cbn [enc_exts]; [|constructor].
+    destruct He as [He1 He2]. apply all_bytes_app. split; [now apply enc16_is_bytes | now apply enc_exts_list_bytes].
+Qed.
+
+Theorem enc_record_bytes hi lo h :
+  hi < 256 -> lo < 256 -> wf_hello h -> nlen (enc_handshake h) < 65536 ->
+  all_bytes (enc_record hi lo h).
+Proof.
+  intros H1 H2 Hwf Hn. unfold enc_record. rewrite !all_bytes_app.
+  repeat split; [repeat constructor; unfold is_byte; lia | now apply enc16_is_bytes | now apply enc_handshake_bytes].
+Qed.
+
+
+(* ---------- the path through ServeTCP, general form: the record may be longer than the
+   handshake message (hl + 4 <= rl); the bytes of the record beyond the message are not
+   consumed, like everything after them ---------- *)
+Lemma sni_route_parse hi lo rl h r extra :
+  wf_hello h -> hello_parses h r ->
+  nlen (enc_handshake h) <= rl -> rl <= 16384 ->
+  sni_route_name ([22; hi; lo] ++ enc16 rl ++ enc_handshake h ++ extra)
+  = Ok (5 + nlen (enc_handshake h), r).
+Proof.
+  intros Hwf Hd Hrl Hsz.
+  pose proof (read_parse_lemma h r Hwf Hd) as Hread.
+  unfold sni_route_name.
+  set (hs := enc_handshake h) in *.
+  assert (Hhs : hs = 1 :: enc24 (nlen (enc_body h)) ++ enc_body h) by reflexivity.
+  set (L := nlen (enc_body h)) in *.
+  assert (HRL : nlen hs = L + 4).
+  { rewrite Hhs, nlen_cons, nlen_app. unfold L. unfold nlen at 1. cbn [length enc24]. lia. }
+  assert (HL : 0 < L).
+  { destruct Hwf as [Hr _ _ _ _ _ _ _ _]. unfold L, enc_body. rewrite !nlen_app. unfold nlen at 2. rewrite Hr. lia. }
+  set (stream := [22; hi; lo] ++ enc16 rl ++ hs ++ extra).
+  assert (Hn : nlen stream = 5 + nlen hs + nlen extra).
+  { unfold stream. rewrite !nlen_app. unfold nlen at 1 2. cbn [length enc16]. lia. }
+  destruct (9 <=? nlen stream) eqn:E; [|apply N.leb_gt in E; lia]. clear E.
+  assert (H9 : firstn 9 stream =
+               [22; hi; lo; rl / 256; rl mod 256; 1; L / 65536; (L / 256) mod 256; L mod 256]).
+  { unfold stream. rewrite Hhs. reflexivity. }
+  rewrite H9. unfold client_hello_buffer_size.
+  change (nlen [22; hi; lo; rl / 256; rl mod 256; 1; L / 65536; (L / 256) mod 256; L mod 256]) with 9.
+  cbn [N.leb N.compare Pos.compare Pos.compare_cont].
+  unfold u16, u24, idx. cbn [nth_error bind Nat.add N.eqb Pos.eqb].
+  rewrite enc16_dec, enc24_dec.
+  destruct ((0 <? rl) && (rl <=? 16384)) eqn:E;
+    [|apply andb_false_iff in E as [E|E]; [apply N.ltb_ge in E | apply N.leb_gt in E]; lia]. clear E.
+  destruct ((0 <? L) && (L + 4 <=? rl)) eqn:E;
+    [|apply andb_false_iff in E as [E|E]; [apply N.ltb_ge in E | apply N.leb_gt in E]; lia]. clear E.
+  cbn [bind].
+  destruct (L + 9 <=? nlen stream) eqn:E; [|apply N.leb_gt in E; lia]. clear E.
+  unfold stream.
+  replace ([22; hi; lo] ++ enc16 rl ++ hs ++ extra) with (([22; hi; lo] ++ enc16 rl ++ hs) ++ extra)
+    by (rewrite <- !app_assoc; reflexivity).
+  rewrite slice_0; [cbn [bind]|].
+  2:{ rewrite !app_length. cbn [length enc16]. unfold nlen in HRL. lia. }
+  rewrite (app_assoc [22; hi; lo]).
+  rewrite (from_at 5%nat ([22; hi; lo] ++ enc16 rl)) by reflexivity. cbn [bind].
+  rewrite Hread. cbn [bind]. f_equal. f_equal. lia.
+Qed.
+
+(* ================= soundness of the whole parser =================
+   An accepted message IS the encoding of a well-formed hello: every length field on the way
+   is consistent with the bytes that follow it, nothing is left over. *)
+Lemma assemble_body {s4 a s6 rnd s38 sl s39 sid d1 c16 s2 ciph d2 ml s1 comp d3 : str} {slb mlb : N} :
+  s4 = a ++ s6 -> s6 = rnd ++ s38 -> s38 = slb :: s39 -> s39 = sid ++ d1 ->
+  d1 = c16 ++ s2 -> s2 = ciph ++ d2 -> d2 = mlb :: s1 -> s1 = comp ++ d3 ->
+  sl = [slb] -> ml = [mlb] ->
+  s4 = a ++ rnd ++ sl ++ sid ++ c16 ++ ciph ++ ml ++ comp ++ d3.
+Proof. intros; subst. rewrite <- ?app_assoc. reflexivity. Qed.
+
+Lemma unmarshal_sound d r :
+  all_bytes d -> unmarshal d = Ok r ->
+  exists h, wf_hello h /\ hello_parses h r /\ skipn 4 d = enc_body h /\ (42 <= length d)%nat.
+Proof.
+  intros Hb. unfold unmarshal.
+  destruct (42 <=? nlen d) eqn:E; [|discriminate]. apply N.leb_le in E. unfold nlen in E.
+  destruct (u16 d 4) as [v|k|] eqn:H0; cbn [bind]; try discriminate.
+  destruct (slice d 6 38) as [rnd0|k|] eqn:H1; cbn [bind]; try discriminate. clear H1 rnd0.
+  destruct (idx d 38) as [sl|k|] eqn:H2; cbn [bind]; try discriminate.
+  destruct ((sl <=? 32) && (39 + sl <=? nlen d)) eqn:E1; [|discriminate].
+  apply andb_true_iff in E1 as [E1 E2]. apply N.leb_le in E1, E2. unfold nlen in E2.
+  destruct (slice d 39 (39 + N.to_nat sl)) as [sid0|k|] eqn:H3; cbn [bind]; try discriminate. clear H3 sid0.
+  destruct (from d (39 + N.to_nat sl)) as [d1|k|] eqn:H4; cbn [bind]; try discriminate.
+  apply from_ok in H4 as [Hd1 _].
+  assert (Bd1 : all_bytes d1) by (subst d1; now apply all_bytes_skipn).
+  assert (Ld1 : (length d1 = length d - (39 + N.to_nat sl))%nat) by (subst d1; apply skipn_length).
+  destruct (2 <=? nlen d1) eqn:E3; [|discriminate]. apply N.leb_le in E3. unfold nlen in E3.
+  destruct (u16 d1 0) as [cl|k|] eqn:H5; cbn [bind]; try discriminate.
+  destruct (N.even cl && (2 + cl <=? nlen d1)) eqn:E4; [|discriminate].
+  apply andb_true_iff in E4 as [Ev E4]. apply N.leb_le in E4. unfold nlen in E4.
+  destruct (from d1 (2 + N.to_nat cl)) as [d2|k|] eqn:H6; cbn [bind]; try discriminate.
+  apply from_ok in H6 as [Hd2 _].
+  assert (Bd2 : all_bytes d2) by (subst d2; now apply all_bytes_skipn).
+  assert (Ld2 : (length d2 = length d1 - (2 + N.to_nat cl))%nat) by (subst d2; apply skipn_length).
+  destruct (1 <=? nlen d2) eqn:E5; [|discriminate]. apply N.leb_le in E5. unfold nlen in E5.
+  destruct (idx d2 0) as [ml|k|] eqn:H7; cbn [bind]; try discriminate.
+  destruct (1 + ml <=? nlen d2) eqn:E6; [|discriminate]. apply N.leb_le in E6. unfold nlen in E6.
+  destruct (slice d2 1 (1 + N.to_nat ml)) as [cm0|k|] eqn:H8; cbn [bind]; try discriminate. clear H8 cm0.
+  destruct (from d2 (1 + N.to_nat ml)) as [d3|k|] eqn:H9; cbn [bind]; try discriminate.
+  apply from_ok in H9 as [Hd3 _].
+  assert (Bd3 : all_bytes d3) by (subst d3; now apply all_bytes_skipn).
+  assert (Ld3 : (length d3 = length d2 - (1 + N.to_nat ml))%nat) by (subst d3; apply skipn_length).
+  (* the pieces *)
+  pose proof (u16_split d 4 v Hb H0) as [Ea Bv]. cbn [Nat.add] in Ea.
+  pose proof (skipn_take d 6 32) as Eb. cbn [Nat.add] in Eb.
+  pose proof (skipn_idx d 38 sl H2) as Ec.
+  pose proof (skipn_take d 39 (N.to_nat sl)) as Ed. rewrite <- Hd1 in Ed.
+  pose proof (u16_split d1 0 cl Bd1 H5) as [Ee Bcl]. rewrite skipn_O in Ee. cbn [Nat.add] in Ee.
+  pose proof (skipn_take d1 2 (N.to_nat cl)) as Ef. rewrite <- Hd2 in Ef.
+  pose proof (skipn_idx d2 0 ml H7) as Eg. rewrite skipn_O in Eg.
+  pose proof (skipn_take d2 1 (N.to_nat ml)) as Eh. rewrite <- Hd3 in Eh.
+  pose proof (idx_byte d 38 sl Hb H2) as Bsl.
+  pose proof (idx_byte d2 0 ml Bd2 H7) as Bml.
+  set (rnd := firstn 32 (skipn 6 d)) in *.
+  set (sid := firstn (N.to_nat sl) (skipn 39 d)) in *.
+  set (ciph := firstn (N.to_nat cl) (skipn 2 d1)) in *.
+  set (comp := firstn (N.to_nat ml) (skipn 1 d2)) in *.
+  assert (Lrnd : length rnd = 32%nat) by (unfold rnd; rewrite firstn_length, skipn_length; lia).
+  assert (Lsid : nlen sid = sl) by (unfold sid, nlen; rewrite firstn_length, skipn_length; lia).
+  assert (Lciph : nlen ciph = cl) by (unfold ciph, nlen; rewrite firstn_length, skipn_length; lia).
+  assert (Lcomp : nlen comp = ml) by (unfold comp, nlen; rewrite firstn_length, skipn_length; lia).
+  assert (Brnd : all_bytes rnd) by (apply all_bytes_firstn, all_bytes_skipn, Hb).
+  assert (Bsid : all_bytes sid) by (apply all_bytes_firstn, all_bytes_skipn, Hb).
+  assert (Bciph : all_bytes ciph) by (apply all_bytes_firstn, all_bytes_skipn, Bd1).
+  assert (Bcomp : all_bytes comp) by (apply all_bytes_firstn, all_bytes_skipn, Bd2).
+  pose proof (assemble_body Ea Eb Ec Ed Ee Ef Eg Eh eq_refl eq_refl) as Hall.
+  assert (Hv1 : v / 256 < 256) by (apply N.div_lt_upper_bound; [discriminate|lia]).
+  assert (Hv2 : v mod 256 < 256) by (apply N.mod_lt; discriminate).
+  destruct (nlen d3 =? 0) eqn:E7.
+  - (* no extension block *)
+    intros Hr. inversion Hr; subst r; clear Hr.
+    apply N.eqb_eq in E7. unfold nlen in E7.
+    assert (Hd3nil : d3 = []) by (destruct d3; [reflexivity|cbn [length] in E7; lia]).
+    exists {| h_vers_hi := v / 256; h_vers_lo := v mod 256; h_random := rnd; h_session := sid;
+              h_ciphers := ciph; h_compress := comp; h_exts := None |}.
+    assert (Hbody : skipn 4 d = enc_body {| h_vers_hi := v / 256; h_vers_lo := v mod 256; h_random := rnd;
+              h_session := sid; h_ciphers := ciph; h_compress := comp; h_exts := None |}).
+    { unfold enc_body. cbn [h_vers_hi h_vers_lo h_random h_session h_ciphers h_compress h_exts enc_exts].
+      rewrite Lsid, Lciph, Lcomp. rewrite Hd3nil in Hall. exact Hall. }
+    split; [|split; [reflexivity|split; [exact Hbody|lia]]].
+    constructor; cbn [h_vers_hi h_vers_lo h_random h_session h_ciphers h_compress h_exts]; auto.
+    + rewrite Lsid. exact E1.
+    + now rewrite Lciph.
+    + now rewrite Lciph.
+    + now rewrite Lcomp.
+    + rewrite <- Hbody. unfold nlen. rewrite skipn_length.
+      rewrite Hd3nil in Ld3. cbn [length] in Ld3. lia.
+  - destruct (2 <=? nlen d3) eqn:E8; [|discriminate]. apply N.leb_le in E8. unfold nlen in E8.
+    destruct (u16 d3 0) as [el|k|] eqn:H10; cbn [bind]; try discriminate.
+    destruct (from d3 2) as [d4|k|] eqn:H11; cbn [bind]; try discriminate.
+    apply from_ok in H11 as [Hd4 _].
+    destruct (el =? nlen d4) eqn:E9; [|discriminate]. apply N.eqb_eq in E9.
+    pose proof (u16_split d3 0 el Bd3 H10) as [Ei Bel]. rewrite skipn_O in Ei. cbn [Nat.add] in Ei.
+    rewrite <- Hd4 in Ei.
+    intros Hx. apply exts_sound in Hx as (es & Hes & Hp & Hfs);
+      [|subst d4; now apply all_bytes_skipn|lia].
+    exists {| h_vers_hi := v / 256; h_vers_lo := v mod 256; h_random := rnd; h_session := sid;
+              h_ciphers := ciph; h_compress := comp; h_exts := Some es |}.
+    assert (Hbody : skipn 4 d = enc_body {| h_vers_hi := v / 256; h_vers_lo := v mod 256; h_random := rnd;
+              h_session := sid; h_ciphers := ciph; h_compress := comp; h_exts := Some es |}).
+    { unfold enc_body. cbn [h_vers_hi h_vers_lo h_random h_session h_ciphers h_compress h_exts enc_exts].
+      rewrite Lsid, Lciph, Lcomp. rewrite <- Hes, <- E9, <- Ei. exact Hall. }
+    split; [|split; [exact Hp|split; [exact Hbody|lia]]].
+    constructor; cbn [h_vers_hi h_vers_lo h_random h_session h_ciphers h_compress h_exts]; auto.
+    + rewrite Lsid. exact E1.
+    + now rewrite Lciph.
+    + now rewrite Lciph.
+    + now rewrite Lcomp.
+    + split; [exact Hfs|]. rewrite <- Hes, <- E9. exact Bel.
+    + rewrite <- Hbody. unfold nlen. rewrite skipn_length.
+      assert (length d4 = length d3 - 2)%nat by (subst d4; apply skipn_length).
+      unfold nlen in E9. lia.
+Qed.
+
+Lemma length9 (l : str) : length l = 9%nat ->
+  exists a0 a1 a2 a3 a4 a5 a6 a7 a8, l = [a0; a1; a2; a3; a4; a5; a6; a7; a8].
+Proof.
+  intros H. do 10 (destruct l as [|? l]; try discriminate). repeat eexists.
+Qed.
+
+Lemma buffer_size_inv9 a0 a1 a2 a3 a4 a5 a6 a7 a8 n :
+  client_hello_buffer_size [a0; a1; a2; a3; a4; a5; a6; a7; a8] = Ok n ->
+  a0 = 22 /\ a5 = 1 /\ 0 < a6 * 65536 + a7 * 256 + a8 /\
+  a6 * 65536 + a7 * 256 + a8 + 4 <= a3 * 256 + a4 /\ a3 * 256 + a4 <= 16384 /\
+  n = a6 * 65536 + a7 * 256 + a8 + 9.
+Proof.
+  unfold client_hello_buffer_size.
+  change (nlen [a0; a1; a2; a3; a4; a5; a6; a7; a8]) with 9.
+  cbn [N.leb N.compare Pos.compare Pos.compare_cont].
+  unfold u16, u24, idx. cbn [nth_error bind Nat.add].
+  destruct (a0 =? 22) eqn:E0; [|discriminate].
+  destruct ((0 <? a3 * 256 + a4) && (a3 * 256 + a4 <=? 16384)) eqn:E1; [|discriminate].
+  destruct (a5 =? 1) eqn:E5; [|discriminate].
+  destruct ((0 <? a6 * 65536 + a7 * 256 + a8) && (a6 * 65536 + a7 * 256 + a8 + 4 <=? a3 * 256 + a4)) eqn:E2; [|discriminate].
+  intros H. inversion H. leb_hyps. repeat split; auto.
+Qed.
+
+(* SOUNDNESS of the whole path.  If ServeTCP routes a stream of bytes on name [r] after
+   consuming [n] bytes, then those [n] bytes are: a handshake record header (any version
+   bytes), a record length [rl] <= 2^14, and the complete encoding of a well-formed
+   ClientHello [h] whose extension block parses to [r]; the message fits the record
+   ([rl] may be larger: record bytes beyond the message are neither consumed nor looked at,
+   like everything after them). *)
+Theorem sni_route_sound s n r :
+  all_bytes s -> sni_route_name s = Ok (n, r) ->
+  exists hi lo rl h,
+    wf_hello h /\ hello_parses h r /\
+    firstn (N.to_nat n) s = [22; hi; lo] ++ enc16 rl ++ enc_handshake h /\
+    n = 5 + nlen (enc_handshake h) /\ nlen (enc_handshake h) <= rl /\ rl <= 16384.
+Proof.
+  intros Hb. unfold sni_route_name.
+  destruct (9 <=? nlen s) eqn:E9; [|discriminate]. apply N.leb_le in E9. unfold nlen in E9.
+  assert (L9 : length (firstn 9 s) = 9%nat) by (rewrite firstn_length; lia).
+  destruct (length9 _ L9) as (a0 & a1 & a2 & a3 & a4 & a5 & a6 & a7 & a8 & H9).
+  assert (B9 : all_bytes (firstn 9 s)) by now apply all_bytes_firstn.
+  rewrite H9 in *.
+  destruct (client_hello_buffer_size _) as [n0|k|] eqn:Hbuf; cbn [bind]; try discriminate.
+  apply buffer_size_inv9 in Hbuf as (-> & -> & Hhl & Hrl & Hmax & ->).
+  set (rl := a3 * 256 + a4) in *. set (hl := a6 * 65536 + a7 * 256 + a8) in *.
+  destruct (hl + 9 <=? nlen s) eqn:En; [|discriminate]. apply N.leb_le in En. unfold nlen in En.
+  destruct (slice s 0 (N.to_nat (hl + 9))) as [data|k|] eqn:Hs; cbn [bind]; try discriminate.
+  apply slice_ok in Hs as [-> _]. rewrite skipn_O, Nat.sub_0_r.
+  assert (Hdata : firstn (N.to_nat (hl + 9)) s =
+                  [22; a1; a2; a3; a4; 1; a6; a7; a8] ++ firstn (N.to_nat hl) (skipn 9 s)).
+  { rewrite <- (firstn_skipn 9 s) at 1. rewrite H9.
+    set (hdr := [22; a1; a2; a3; a4; 1; a6; a7; a8]).
+    replace (N.to_nat (hl + 9)) with (length hdr + N.to_nat hl)%nat by (cbn [length hdr]; lia).
+    apply firstn_app_2. }
+  rewrite Hdata. set (body := firstn (N.to_nat hl) (skipn 9 s)) in *.
+  destruct (from _ 5) as [msg|k|] eqn:Hf; cbn [bind]; try discriminate.
+  apply from_ok in Hf as [-> _]. cbn [app skipn].
+  destruct (read_server_name _) as [name|k|] eqn:Hr; cbn [bind]; try discriminate.
+  intros H. inversion H; subst n r; clear H.
+  repeat (apply all_bytes_cons in B9 as [? B9]).
+  assert (Bbody : all_bytes body) by (apply all_bytes_firstn, all_bytes_skipn, Hb).
+  assert (Lbody : nlen body = hl) by (unfold body, nlen; rewrite firstn_length, skipn_length; lia).
+  apply unmarshal_sound in Hr as (h & Hwf & Hp & Hbody & _).
+  2:{ repeat (apply all_bytes_cons; split; [assumption|]). exact Bbody. }
+  cbn [skipn] in Hbody.
+  assert (Hhs : enc_handshake h = 1 :: a6 :: a7 :: a8 :: body).
+  { unfold enc_handshake. rewrite <- Hbody, Lbody. unfold hl. rewrite enc24_bytes by assumption. reflexivity. }
+  assert (Lhs : nlen (enc_handshake h) = hl + 4).
+  { rewrite Hhs, !nlen_cons, Lbody. lia. }
+  exists a1, a2, rl, h.
+  split; [exact Hwf|]. split; [exact Hp|]. split; [|split; [|split; [|exact Hmax]]].
+  - rewrite Hdata. unfold rl. rewrite enc16_bytes by assumption. rewrite Hhs. reflexivity.
+  - lia.
+  - lia.
+Qed.
+
+(* ... and the converse: together an exact description of what is routed *)
+Theorem sni_route_exact s n r :
+  all_bytes s ->
+  (sni_route_name s = Ok (n, r) <->
+   exists hi lo rl h extra,
+     wf_hello h /\ hello_parses h r /\
+     s = [22; hi; lo] ++ enc16 rl ++ enc_handshake h ++ extra /\
+     n = 5 + nlen (enc_handshake h) /\ nlen (enc_handshake h) <= rl /\ rl <= 16384).
+Proof.
+  intros Hb. split.
+  - intros H. destruct (sni_route_sound s n r Hb H) as (hi & lo & rl & h & Hwf & Hp & Hs & Hn & H1 & H2).
+    exists hi, lo, rl, h, (skipn (N.to_nat n) s).
+    split; [exact Hwf|]. split; [exact Hp|]. split; [|auto].
+    rewrite <- (firstn_skipn (N.to_nat n) s) at 1. rewrite Hs, <- !app_assoc. reflexivity.
+  - intros (hi & lo & rl & h & extra & Hwf & Hp & -> & -> & H1 & H2).
+    now apply sni_route_parse.
+Qed.
+
+(* TRUNCATION: every strict prefix of what an accepted stream had consumed is rejected
+   (Peek / ReadFull fail: Err 10), whatever the bytes *)
+Theorem sni_route_truncated s n r k :
+  sni_route_name s = Ok (n, r) -> (k < N.to_nat n)%nat ->
+  sni_route_name (firstn k s) = Err 10.
+Proof.
+  unfold sni_route_name. intros H Hk.
+  destruct (9 <=? nlen s) eqn:E9; [|discriminate]. apply N.leb_le in E9. unfold nlen in E9.
+  destruct (client_hello_buffer_size (firstn 9 s)) as [n0|e|] eqn:Hb; cbn [bind] in H; try discriminate.
+  destruct (n0 <=? nlen s) eqn:En; [|discriminate].
+  destruct (slice s 0 (N.to_nat n0)) as [data|e|]; cbn [bind] in H; try discriminate.
+  destruct (from data 5) as [msg|e|]; cbn [bind] in H; try discriminate.
+  destruct (read_server_name msg) as [nm|e|]; cbn [bind] in H; try discriminate.
+  inversion H; subst n0 r; clear H.
+  destruct (9 <=? nlen (firstn k s)) eqn:E; [|reflexivity].
+  apply N.leb_le in E. unfold nlen in E. rewrite firstn_length in E.
+  rewrite firstn_firstn. replace (Nat.min 9 k) with 9%nat by lia. rewrite Hb. cbn [bind].
+  destruct (n <=? nlen (firstn k s)) eqn:E2; [|reflexivity].
+  apply N.leb_le in E2. unfold nlen in E2. rewrite firstn_length in E2. lia.
+Qed.
+
+(* for encodings: no strict prefix of a record carrying a well-formed hello is accepted *)
+Theorem enc_record_truncated hi lo h r k :
+  wf_hello h -> hello_denotes h r -> nlen (enc_handshake h) <= 16384 ->
+  (k < length (enc_record hi lo h))%nat ->
+  sni_route_name (firstn k (enc_record hi lo h)) = Err 10.
+Proof.
+  intros Hwf Hd Hsz Hk.
+  pose proof (sni_route_encode hi lo h r [] Hwf Hd Hsz) as H. rewrite app_nil_r in H.
+  apply (sni_route_truncated _ _ _ k H). unfold nlen. lia.
+Qed.
+
+(* a non-trivial instance of the soundness theorem's hypotheses *)
+Example ex_route_sound_nonvacuous :
+  all_bytes (enc_record 3 1 ex_hello ++ [23; 3; 3]) /\
+  sni_route_name (enc_record 3 1 ex_hello ++ [23; 3; 3]) = Ok (nlen (enc_record 3 1 ex_hello), bs "foo.com"%string).
+Proof. split; [apply bytes_b_ok; vm_compute; reflexivity | vm_compute; reflexivity]. Qed.
+
+(* ---------- from [hello_parses] back to [hello_denotes] ----------
+   When every server_name extension of the hello carries the encoding of an entry list (no
+   stray bytes), what the parser found is what the lists denote. *)
+Lemma app_same_length_inv {A} (a a' b b' : list A) :
+  length a = length a' -> a ++ b = a' ++ b' -> a = a' /\ b = b'.
+Proof.
+  revert a'. induction a as [|x a IH]; intros [|x' a'] HL H; try discriminate.
+  - auto.
+  - cbn [app] in H. inversion H; subst. cbn [length] in HL.
+    destruct (IH a') as [-> ->]; auto.
+Qed.
+
+Lemma sni_body_fun b o o' : sni_body b o -> sni_body b o' -> o = o'.
+Proof.
+  intros H H'. pose proof (names_body _ _ H (S (length b)) ltac:(lia)) as E.
+  pose proof (names_body _ _ H' (S (length b)) ltac:(lia)) as E'. congruence.
+Qed.
+
+Definition well_listed (es : list extension) : Prop :=
+  forall e, In e es -> ext_type e = 0 -> exists l, ext_data e = enc_sni_list l.
+
+Lemma exts_parse_denote es sn r :
+  exts_parse es sn r -> well_listed es -> exts_denote es sn r.
+Proof.
+  induction 1 as [sn | e es sn r Hne _ IH | e body o es sn r Ht Hdata Hbody _ IH]; intros Hw.
+  - constructor.
+  - apply ed_other; [exact Hne|]. apply IH. intros e' He'. apply Hw. now right.
+  - destruct (Hw e (or_introl eq_refl) Ht) as [l Hl].
+    apply (ed_sni e l); [split; assumption|].
+    assert (Hb : body = flat_map enc_sni_entry l).
+    { rewrite Hl in Hdata. unfold enc_sni_list in Hdata.
+      apply app_same_length_inv in Hdata as [_ Hdata]; [now symmetry|reflexivity]. }
+    subst body. unfold ext_sni.
+    rewrite (sni_body_fun _ _ _ Hbody (sni_body_of_list l)) in IH.
+    apply IH. intros e' He'. apply Hw. now right.
+Qed.
+
+Lemma hello_parses_denotes h r :
+  hello_parses h r ->
+  (match h_exts h with None => True | Some es => well_listed es end) ->
+  hello_denotes h r.
+Proof.
+  unfold hello_parses, hello_denotes. destruct (h_exts h); [apply exts_parse_denote|auto].
+Qed.
+
+(* the encoding of an entry list is injective (no bound needed: [enc16] is) *)
+Lemma enc16_inj a b : enc16 a = enc16 b -> a = b.
+Proof.
+  unfold enc16. intros H. injection H as H1 H2.
+  rewrite <- (enc16_dec a), <- (enc16_dec b). congruence.
+Qed.
+
+Lemma enc_sni_entries_inj l : forall l',
+  flat_map enc_sni_entry l = flat_map enc_sni_entry l' -> l = l'.
+Proof.
+  induction l as [|[ty nm] l IH]; intros [|[ty' nm'] l'] H; try reflexivity; try discriminate.
+  cbn [flat_map] in H. unfold enc_sni_entry in H at 1 3. cbn [sn_type sn_name] in H.
+  unfold enc16 in H. cbn [app] in H. injection H as Hty Hhi Hlo Hrest.
+  assert (Hn : nlen nm = nlen nm') by (apply enc16_inj; unfold enc16; congruence).
+  apply app_same_length_inv in Hrest as [-> Hrest]; [|unfold nlen in Hn; lia].
+  subst. f_equal. now apply IH.
+Qed.
+
+Lemma enc_sni_list_inj l l' : enc_sni_list l = enc_sni_list l' -> l = l'.
+Proof.
+  unfold enc_sni_list. intros H.
+  apply app_same_length_inv in H as [_ H]; [|reflexivity]. now apply enc_sni_entries_inj.
+Qed.
+
+
+(* ================= malformed server_name data that is NOT rejected (open findings) =================
+   RFC 8446 4.2 (no two extensions of one type) and RFC 6066 3 (a ServerNameList is not empty,
+   names are not empty, at most one name per type; and no trailing dot, RFC 6066 3 "without a
+   trailing dot"), i.e. what a standard TLS server (crypto/tls) enforces on the part of the hello
+   the extraction is about.  The property wants such input rejected; the parser is laxer. *)
+Definition ends_with_dot (s : str) : bool :=
+  match rev s with 46 :: _ => true | _ => false end.
+
+Definition rfc_sni_list (l : list sni_entry) : Prop :=
+  l <> [] /\ (forall e, In e l -> sn_name e <> []) /\
+  (length (host_entries l) <= 1)%nat /\
+  (forall e, In e (host_entries l) -> ends_with_dot (sn_name e) = false).
+
+Definition rfc_exts (es : list extension) : Prop :=
+  NoDup (map ext_type es) /\
+  forall e, In e es -> ext_type e = 0 ->
+    exists l, ext_data e = enc_sni_list l /\ rfc_sni_list l.
+
+Definition rfc_hello (h : hello) : Prop :=
+  match h_exts h with None => True | Some es => rfc_exts es end.
+
+Definition host (s : string) : sni_entry := {| sn_type := 0; sn_name := bs s |}.
+Definition sni_ext (l : list sni_entry) : extension := {| ext_type := 0; ext_data := enc_sni_list l |}.
+Definition hello_with (es : list extension) : hello := {|
+  h_vers_hi := 3; h_vers_lo := 3; h_random := repeat 7 32; h_session := [];
+  h_ciphers := [19; 1]; h_compress := [0]; h_exts := Some es |}.
+
+(* region 1: two server_name extensions; the last one with a host_name wins *)
+Definition wit_dup_sni : hello := hello_with [sni_ext [host "a.com"]; sni_ext [host "b.com"]].
+(* region 2: bytes after the first host_name entry are never looked at (here: a second host_name) *)
+Definition wit_two_hosts : hello := hello_with [sni_ext [host "a.com"; host "b.com"]].
+(* region 3: a host_name with a trailing dot *)
+Definition wit_trailing_dot : hello := hello_with [sni_ext [host "a.com."]].
+
+Ltac routed_witness :=
+  split; [apply wf_hello_b_ok; vm_compute; reflexivity|];
+  split; [vm_compute; reflexivity|]; split; [discriminate|].
+
+Theorem duplicate_sni_routed_refuted :
+  exists h r, wf_hello h /\
+    sni_route_name (enc_record 3 1 h) = Ok (nlen (enc_record 3 1 h), r) /\ r <> [] /\ ~ rfc_hello h.
+Proof.
+  exists wit_dup_sni, (bs "b.com"%string). routed_witness.
+  intros [Hnd _]. cbn in Hnd. inversion Hnd as [|x xs Hnotin _]. apply Hnotin. now left.
+Qed.
+
+Theorem second_host_name_routed_refuted :
+  exists h r, wf_hello h /\
+    sni_route_name (enc_record 3 1 h) = Ok (nlen (enc_record 3 1 h), r) /\ r <> [] /\ ~ rfc_hello h.
+Proof.
+  exists wit_two_hosts, (bs "a.com"%string). routed_witness.
+  intros [_ Hs].
+  destruct (Hs (sni_ext [host "a.com"; host "b.com"]) (or_introl eq_refl) eq_refl) as (l & Hl & Hrfc).
+  cbn [ext_data sni_ext] in Hl. apply enc_sni_list_inj in Hl. subst l.
+  destruct Hrfc as (_ & _ & Hlen & _). cbn in Hlen. lia.
+Qed.
+
+Theorem trailing_dot_routed_refuted :
+  exists h r, wf_hello h /\
+    sni_route_name (enc_record 3 1 h) = Ok (nlen (enc_record 3 1 h), r) /\ r <> [] /\ ~ rfc_hello h.
+Proof.
+  exists wit_trailing_dot, (bs "a.com."%string). routed_witness.
+  intros [_ Hs].
+  destruct (Hs (sni_ext [host "a.com."]) (or_introl eq_refl) eq_refl) as (l & Hl & Hrfc).
+  cbn [ext_data sni_ext] in Hl. apply enc_sni_list_inj in Hl. subst l.
+  destruct Hrfc as (_ & _ & _ & Hdot).
+  specialize (Hdot (host "a.com.") (or_introl eq_refl)). vm_compute in Hdot. discriminate.
+Qed.
+
+(* outside the regions: on RFC-shaped hellos the parser returns THE host_name (or nothing) *)
+Theorem rfc_hello_read h :
+  wf_hello h -> rfc_hello h ->
+  exists r, read_server_name (enc_handshake h) = Ok r /\ hello_denotes h r /\
+    match h_exts h with
+    | None => r = []
+    | Some es =>
+        (forall e, In e es -> ext_type e <> 0) /\ r = [] \/
+        exists e l, In e es /\ is_sni_ext e l /\ rfc_sni_list l /\
+                    r = match sni_of_list l with Some n => n | None => [] end
+    end.
+Proof.
+  intros Hwf Hr. unfold rfc_hello in Hr. unfold hello_denotes.
+  destruct (h_exts h) as [es|] eqn:He.
+  2:{ exists []. split; [|auto]. apply read_encode_no_sni; [exact Hwf|]. now rewrite He. }
+  destruct Hr as [Hnd Hs].
+  destruct (existsb (fun e => ext_type e =? 0) es) eqn:Ex.
+  - apply existsb_exists in Ex as (e & Hin & Ht). apply N.eqb_eq in Ht.
+    destruct (Hs e Hin Ht) as (l & Hl & Hall).
+    exists (match sni_of_list l with Some n => n | None => [] end).
+    split; [apply (read_encode_rfc h es e l); auto; now split|].
+    split; [apply (exts_denote_unique_sni es e l []); auto; now split|].
+    right. exists e, l. split; [exact Hin|]. split; [now split|]. split; [exact Hall|reflexivity].
+  - exists []. assert (Hno : forall e, In e es -> ext_type e <> 0).
+    { intros e Hin Ht. assert (existsb (fun e => ext_type e =? 0) es = true); [|congruence].
+      apply existsb_exists. exists e. split; [exact Hin|now apply N.eqb_eq]. }
+    split; [apply read_encode_no_sni; [exact Hwf|now rewrite He]|].
+    split; [now apply exts_denote_no_sni|]. left. auto.
+Qed.
+
+(* the premises of C10_read_encode (and RFC shape) on the example hello *)
+Example ex_hello_rfc_premises :
+  exists es e l, h_exts ex_hello = Some es /\ NoDup (map ext_type es) /\ In e es /\ is_sni_ext e l /\
+                 rfc_hello ex_hello.
+Proof.
+  eexists. exists {| ext_type := 0; ext_data := enc_sni_list [ {| sn_type := 0; sn_name := bs "foo.com"%string |} ] |}.
+  eexists. split; [reflexivity|]. split.
+  { cbn. repeat constructor; cbn; intuition discriminate. }
+  split; [right; left; reflexivity|]. split; [split; reflexivity|].
+  split.
+  { cbn. repeat constructor; cbn; intuition discriminate. }
+  intros e [<-|[<-|[]]] Ht; [discriminate|]. eexists. split; [reflexivity|].
+  split; [discriminate|]. split; [intros e [<-|[]]; discriminate|].
+  split; [cbn; lia|]. intros e [<-|[]]. reflexivity.
+Qed.
+
+(* outside the regions, for byte streams: what is routed is the encoding of a well-formed hello,
+   and if that hello is RFC-shaped the name routed on is the one its (single) list denotes *)
+Lemma rfc_well_listed es : rfc_exts es -> well_listed es.
+Proof. intros [_ H] e Hin Ht. destruct (H e Hin Ht) as (l & Hl & _). eauto. Qed.
+
+Theorem sni_route_sound_rfc s n r :
+  all_bytes s -> sni_route_name s = Ok (n, r) ->
+  exists hi lo rl h,
+    wf_hello h /\
+    firstn (N.to_nat n) s = [22; hi; lo] ++ enc16 rl ++ enc_handshake h /\
+    (rfc_hello h -> hello_denotes h r).
+Proof.
+  intros Hb H. destruct (sni_route_sound s n r Hb H) as (hi & lo & rl & h & Hwf & Hp & Hs & _).
+  exists hi, lo, rl, h. split; [exact Hwf|]. split; [exact Hs|].
+  intros Hr. apply hello_parses_denotes; [exact Hp|].
+  unfold rfc_hello in Hr. destruct (h_exts h); [now apply rfc_well_listed|exact I].
 Qed.
